@@ -432,7 +432,7 @@ def run(ctx):
         cat = C.for_version(ver)
         slots = (['cell0', 'gmeta', 'cmeta', 'lelem', 'dval', 'ncell'] if ver == '3.0' else ['cell1', 'gmeta', 'cmeta'])
         if ctx.quick:
-            slots = slots[:3] if ver == '3.0' else slots[:1]
+            slots = ['cell0', 'gmeta', 'cmeta', 'lelem', 'dval'] if ver == '3.0' else slots[:1]
             cat = [e for e in cat if e.rep]
         for slot in slots:
             for e in cat:
